@@ -149,6 +149,7 @@ V['metrics.finish_cycle'] = dict(requires=[], ensures=[
 # loop contracts are lists of (row-clause-id, text): a failing line is attributed to that clause's row
 _DC_INV = [
     ('inv', 'inv(self@), quiescent(self@)'),
+    ('terminates', 'has_slept ==> self@.phase != Phase::Sleep'),
     ('asleep_no_progress', 'run_until == RunUntil::PayDebt ==> debt_pos(old(self)@.m)'),
     ('history', 'old(self)@.hist.len() <= self@.hist.len(), self@.hist.subrange(0, old(self)@.hist.len() as int) =~= old(self)@.hist'),
     ('stop_the_world', 'zero_work_factors(self@.m.fl) == zero_work_factors(old(self)@.m.fl)'),
@@ -172,7 +173,6 @@ _DC_LOOP_ENS = [
     ('stop_the_world', '(run_until == RunUntil::PayDebt && stop_rank(stop) >= 2 && zero_work_factors(old(self)@.m.fl) && debt_pos(old(self)@.m)) ==> self@.phase == Phase::Sleep'),
 ]
 V['context.do_collection'] = dict(
-    attrs=['#[verifier::exec_allows_no_decreases_clause]'],
     requires=['inv(old(self)@)', 'quiescent(old(self)@)'],
     ensures=[
         ('inv', ['C01', 'C02', 'C04', 'C05', 'C07', 'C11', 'C20'], 'inv(final(self)@) && quiescent(final(self)@)'),
@@ -193,8 +193,10 @@ V['context.do_collection'] = dict(
         # C09 stop-the-world sentence: all work factors zero and positive debt => does not return until Sleeping again
         ('stop_the_world', ['C09'], '(run_until == RunUntil::PayDebt && stop_rank(stop) >= 2 && zero_work_factors(old(self)@.m.fl) && debt_pos(old(self)@.m)) ==> final(self)@.phase == Phase::Sleep'),
     ],
-    loops={0: dict(invariant_except_break=_DC_INV, ensures=_DC_LOOP_ENS)},
-    body_serves=['C08', 'C09', 'C01'],
+    # termination (C02: finish_cycle terminates from every phase; C09: a debt-driven call returns): lexicographic measure
+    loops={0: dict(invariant_except_break=_DC_INV, ensures=_DC_LOOP_ENS, decreases='trank(has_slept, self@.phase), measure(self@)')},
+    body_serves=['C08', 'C09', 'C01', 'C02'],
+    loop_serves={'terminates': ['C02', 'C09']},
 )
 
 # ------------------------------------------------------------------ impl Drop for Context (rule X-dropall)
@@ -241,6 +243,7 @@ L_SERVES = {
     'axioms':    ['C09'],
     'theorems':  [],
     'lem_traced': ['C10', 'C06'],
+    'lem_term': ['C02', 'C09'],
     'witness': [],
 }
 L_SERVES_FN = {
@@ -469,3 +472,4 @@ PROP_ASSUMES.update({
 })
 ASSUMPTIONS['A-rcptr'] = 'Weak::as_ptr of a dead Rc allocation kept alive by a Weak never equals Rc::as_ptr of a live Rc (the crate states the same assumption)'
 PROP_ASSUMES['C14'].insert(0, 'A-rcptr')
+_k('K.weak.api', 'k_weak_api', ['C05', 'C07', 'C19'], 'GcWeak::upgrade / is_dropped / is_dead / resurrect and Gc::is_dead map exactly to the Context functions: results per (phase, colour, live), frame, revived object Gray and queued')
